@@ -227,6 +227,98 @@ Lemma refuted_underscore :
   wf_text_code_g true (compile_schema (sch [fld w_A_us_B [CReq]]) true) = 0.
 Proof. vm_compute. split; reflexivity. Qed.
 
+(* ---- repo commit 481c8b3: names are written through _escape_literal ------------------------------------- *)
+(* ties to the CURRENT templates (not needed by the extracted model, which follows the generated list) *)
+Lemma pin_field_name_escaped : gbnf_field_name_escaped = true.
+Proof. reflexivity. Qed.
+Lemma pin_schema_name_escaped : gbnf_schema_name_escaped = true.
+Proof. reflexivity. Qed.
+
+Lemma pin_names_escaped : gbnf_field_name_escaped = true /\ gbnf_schema_name_escaped = true.
+Proof. split; reflexivity. Qed.
+
+(* the per_field template, run with an abstract hole function *)
+Lemma field_line_of_eq hf :
+  field_line_of hf = hf h_rule_name ++ [32;58;58;61;32;34] ++ hf h_field_name_esc ++ [34;32;34;58;58;34;32;119;115;32]
+                     ++ hf h_pattern ++ [].
+Proof. vm_compute. reflexivity. Qed.
+
+Lemma field_line_eq f :
+  field_line f = rule_name_of f ++ [32;58;58;61;32;34] ++ escape_literal (fd_name f) ++ [34;32;34;58;58;34;32;119;115;32]
+                 ++ pattern_of f.
+Proof. unfold field_line. rewrite field_line_of_eq, app_nil_r. reflexivity. Qed.
+
+(* witnesses of the two findings fixed by 481c8b3: a META.CONTRACT field FIELD[(dq)q r(dq)] keeps its quotes in the
+   field name (dq q space r dq); a quoted META TYPE gives the schema name  a dq b backslash c  *)
+Definition w_qr : str := [34;113;32;114;34].
+Definition w_aqbc : str := [97;34;98;92;99].
+Definition sch_named (n : str) (fs : list field) : schema := mkSchema n (map ascii_upper n) fs.
+Definition regress_schema : schema := sch_named w_aqbc [fld w_qr [CReq]; fld w_NAME [COpt; CEnum [[65]; [66]]]].
+
+(* both names at once, with and without envelope: in the safe class, and well-formed *)
+Example regress_escaped_names_wf :
+  safe_schema regress_schema true = true /\ safe_schema regress_schema false = true /\
+  wf_text (compile_schema regress_schema true) = true /\ wf_text (compile_schema regress_schema false) = true.
+Proof. vm_compute. repeat split; reflexivity. Qed.
+
+Example regress_quoted_field_name_wf :
+  wf_text (compile_schema (sch [fld w_qr [CReq]]) true) = true /\ wf_text (compile_schema (sch [fld w_qr [CReq]]) false) = true.
+Proof. vm_compute. split; reflexivity. Qed.
+
+Example regress_schema_name_wf :
+  wf_text (compile_schema (sch_named w_aqbc [fld w_NAME [CReq]]) true) = true /\
+  wf_text (compile_schema (sch_named w_aqbc []) true) = true.
+Proof. vm_compute. split; reflexivity. Qed.
+
+(* the literal the recogniser reads back is the name itself *)
+Example regress_field_literal_read_back :
+  option_map (fun r => r_alts r) (line_rule (field_line (fld w_qr [CReq])))
+  = Some [[ILit w_qr; ILit [58;58]; IRef n_ws; IRep (IClass true [(c_nl, None)]) 1 None]].
+Proof. vm_compute. reflexivity. Qed.
+
+(* THE OLD TEMPLATES (pre-481c8b3): the same generated list with the two wrapped holes replaced by the raw ones *)
+Definition unescape_part (p : gpart) : gpart :=
+  match p with
+  | PHole h => if str_eqb h h_field_name_esc then PHole h_field_name
+               else if str_eqb h h_schema_upper_esc then PHole h_schema_upper else p
+  | PLit _ => p
+  end.
+Definition raw_names_prog : list (str * list gpart) :=
+  map (fun e : str * list gpart => (fst e, map unescape_part (snd e))) gbnf_schema_prog.
+Definition compile_schema_raw_names (s : schema) (env : bool) : str := compile_schema_of raw_names_prog s env.
+
+(* ... these ARE the two lines of the pre-fix source:  {rule_name} ::= (dq){field_name}(dq) (dq)::(dq) ws {pattern}
+   and  envelope-start ::= (dq)==={schema_name}===(dq) *)
+Lemma raw_names_prog_is_pre_fix_template :
+  filter (fun e : str * list gpart => tpl_has_hole [e] h_field_name || tpl_has_hole [e] h_schema_upper) raw_names_prog
+  = [(g_per_field, [PHole h_rule_name; PLit [32;58;58;61;32;34]; PHole h_field_name; PLit [34;32;34;58;58;34;32;119;115;32];
+                    PHole h_pattern]);
+     (g_envelope, [PLit [101;110;118;101;108;111;112;101;45;115;116;97;114;116;32;58;58;61;32;34;61;61;61];
+                   PHole h_schema_upper; PLit [61;61;61;34]])]
+  /\ tpl_has_hole raw_names_prog h_field_name_esc = false /\ tpl_has_hole raw_names_prog h_schema_upper_esc = false.
+Proof. vm_compute. repeat split; reflexivity. Qed.
+
+(* the old templates were ill-formed on the witnesses: the quoted field name leaves references to the undefined
+   rules q and r (code 3); the schema name ends the envelope literal early and the text does not parse (code 1).
+   The current templates give code 0 on the same schemas. *)
+Theorem unescaped_name_was_ill_formed :
+  wf_text_code (compile_schema_raw_names (sch [fld w_qr [CReq]]) true) = 3 /\
+  wf_text_code (compile_schema_raw_names (sch [fld w_qr [CReq]]) false) = 3 /\
+  wf_text_code (compile_schema_raw_names (sch_named w_aqbc [fld w_NAME [CReq]]) true) = 1 /\
+  wf_text_code (compile_schema (sch [fld w_qr [CReq]]) true) = 0 /\
+  wf_text_code (compile_schema (sch [fld w_qr [CReq]]) false) = 0 /\
+  wf_text_code (compile_schema (sch_named w_aqbc [fld w_NAME [CReq]]) true) = 0.
+Proof. vm_compute. repeat split; reflexivity. Qed.
+
+(* without envelope the schema name only occurs in the header comment: it never mattered there *)
+Example raw_schema_name_without_envelope_was_fine :
+  wf_text_code (compile_schema_raw_names (sch_named w_aqbc [fld w_NAME [CReq]]) false) = 0.
+Proof. vm_compute. reflexivity. Qed.
+
+(* the safe class GREW: every schema of the old class (names free of quote and backslash) is in the new one ... *)
+Lemma lit_plain_no_nul s : lit_plain s = true -> no_nul s = true.
+Proof. unfold lit_plain, no_nul. intro H. apply andb_true_iff in H as [_ H]. exact H. Qed.
+
 (* the hypothesis of compile_wf is satisfiable on a non-trivial schema (ENUM with quotes/backslash, CONST, TYPE,
    DATE, a well-formed REGEX, no chain) and the conclusion holds there *)
 Definition ex_schema : schema :=
